@@ -40,6 +40,7 @@ type Hook struct {
 	Sets     []GhostSet
 	Pos      string
 	CallInv  []Clause // invariant maintained by every call of the closure passed to a `repeats` callee
+	Scope    []string // the hook applies only at sites where these local names are in scope (//@ scope a b)
 }
 
 type GhostSet struct {
@@ -594,6 +595,11 @@ func ParseContracts(P *Program) (*Contracts, error) {
 				cur.Hooks = append(cur.Hooks, Hook{When: f[0], Pattern: strings.Join(f[1:], " "), Pos: pos})
 				curHook = &cur.Hooks[len(cur.Hooks)-1]
 				curLoop = nil
+			case "scope":
+				if curHook == nil {
+					return nil, fmt.Errorf("%s: scope outside hook", pos)
+				}
+				curHook.Scope = append(curHook.Scope, strings.Fields(rest)...)
 			case "set":
 				if curHook == nil {
 					return nil, fmt.Errorf("%s: set outside hook", pos)
